@@ -20,6 +20,10 @@ R05e no block, no name: when the interpreter is replaced (Engine._stop_interpret
 R05f an aborted handler's blocks are released: _abort_block_interrupts releases (lock_acquired = False) the blocks below every
      interrupt it unregisters - a block started by a Watch/Alarm body can only be released by that handler's generator, which is
      gone after the abort; left locked, every later Block waits for ever.
+R05g an ended block runs no further line - whoever walks it: a Block in a Watch/Alarm body is walked by the interrupt handler, a Block
+     of the program by the main flow. In _visit_children every `self.visit(child)` is dominated by the false outcome of
+     `self._is_in_ended_block(child)` itself (a conjunction with e.g. `not self._in_interrupt` does not establish it): otherwise the
+     lines after `End block` (issued by a nested Watch) run although the block has ended, and what follows the block starts late.
 Decides these shapes; the single-chain invariant over all reachable interpreter states is data-dependent.
 """
 from __future__ import annotations
@@ -233,6 +237,26 @@ def run(ctx) -> None:
     else:
         ctx.fail("R05f", abf, (unreg[0].ast if unreg else abf.node), inst, "the handler is dropped but a block its body had started keeps lock_acquired: "
                  "`End blocks` (or End block of the outer block) then leaves that block locked for ever and every later Block dead-locks")
+    ctx.rule("R05g", "no line of an ended block starts, in the main flow and in interrupt handlers")
+    vc5 = pi.methods.get("_visit_children")
+    if vc5 is None:
+        raise AnchorError("PInterpreter._visit_children missing")
+    ctx.analysed(vc5)
+    gv5 = cfg_of(vc5)
+    visits5 = [n for n in gv5.nodes if any(call_attr(c) == "visit" and norm(c.func) == "self.visit" for c in n.calls())]
+    if not visits5:
+        raise AnchorError("_visit_children: self.visit(child) not found")
+    from ..util import local_single_defs as _lsd5
+    for n in visits5:
+        call = next(c for c in n.calls() if call_attr(c) == "visit")
+        child = norm(call.args[0]) if call.args else "?"
+        inst = f"_visit_children: self.visit({child}) only when the child is not in an ended block"
+        if (f"self._is_in_ended_block({child})", False) in facts_at(gv5, n, _lsd5(vc5)):
+            ctx.ok("R05g", inst)
+        else:
+            ctx.fail("R05g", vc5, n.ast, inst, "the ended-block test is missing or holds only together with another condition: in a Block that a "
+                     "Watch/Alarm body started (walked by the handler), the lines after an `End block` issued by a nested Watch still run - "
+                     "`Watch / Block: B / Mark: a / Watch / End block // Wait: 1s / Mark: b` writes b after B has ended")
     ctx.rule("R05e", "the Block tag is cleared when the interpreter is replaced")
     si = prog.func("openpectus.engine.engine:Engine._stop_interpreter")
     ctx.analysed(si)
